@@ -281,19 +281,24 @@ def sortDispatch (s : State V) (docids : List Int) (reverse : Bool) (limit : Opt
     | none => .valueError
     | some g => .gen g
 
+/-- `limit = int(limit); if limit < 1: raise ValueError` -/
+def limitInvalid (limit : Option Int) : Bool :=
+  match limit with
+  | some l => decide (l < 1)
+  | none => false
+
+/-- `STABLE → TIMSORT`, `OPTIMAL → None` -/
+def normType : Option SortType → Option SortType
+  | some .stable => some .timsort
+  | some .optimal => none
+  | x => x
+
 /-- `FieldIndex.sort` -/
 def sort (s : State V) (docids : List Int) (reverse : Bool) (limit : Option Int)
     (st : Option SortType) (raiseU : Bool) : SortRes :=
-  if (match limit with | some l => decide (l < 1) | none => false) then .valueError
-  else
-    let limit := limit.map Int.toNat
-    if docids.isEmpty then .emptyList
-    else if s.numDocs = 0 then (if raiseU then .unsortableAtCall docids else .emptyList)
-    else
-      let st := match st with
-        | some .stable => some .timsort
-        | some .optimal => none
-        | x => x
-      sortDispatch s docids reverse limit s.numDocs.toNat st raiseU
+  if limitInvalid limit then .valueError
+  else if docids.isEmpty then .emptyList
+  else if s.numDocs = 0 then (if raiseU then .unsortableAtCall docids else .emptyList)
+  else sortDispatch s docids reverse (limit.map Int.toNat) s.numDocs.toNat (normType st) raiseU
 
 end Hyp.Field
